@@ -1,6 +1,7 @@
 package tl
 
 import (
+	"context"
 	"sync"
 	"time"
 )
@@ -12,7 +13,7 @@ type StressOpt struct {
 	Observers  int  // goroutines polling Status()
 	SleepTasks bool // tasks that stay a while in Start() (drives the concurrency level up)
 	Kinds      bool // non-panicking tasks are pushed as values of different dynamic types (func adapter, structs with slice / map)
-	CancelMode int  // 0 random, 1 after everything accepted has run (progress is then checked), 2 at a random moment
+	CancelMode int  // 0 random, 1 after everything accepted has run (progress is then checked), 2 at a random moment, 3 a real context.WithDeadline expires mid-run
 }
 
 // Stress: producers push tasks of random kinds to random lanes while observers poll Status(); the
@@ -26,6 +27,27 @@ func (en *Engine) Stress(n, q int, o StressOpt, idx int) {
 	}
 	r := en.New(fam, name, n, q)
 	defer en.Finish(fam, r)
+	mode := o.CancelMode
+	if mode == 0 {
+		mode = 1 + rng.Intn(2)
+		if rng.Chance(15) {
+			mode = 3
+		}
+	}
+	expired := make(chan struct{})
+	if mode == 3 {
+		// a live standard-library deadline context behind the gate: it ends by its own timer, in the middle of the run.
+		// Xb = the deadline is armed (before the lane exists), Xe = the harness has seen Done() closed.
+		c, cancel := context.WithDeadline(context.Background(), time.Now().Add(time.Duration(200+rng.Intn(1800))*time.Microsecond))
+		r.G = NewGateWrapping(en.ST, c, cancel)
+		r.rec("Xb")
+		go func() {
+			<-c.Done()
+			r.rec("Xe")
+			close(expired)
+		}()
+		en.E.Count("stress_real_deadline_runs", 1)
+	}
 	timeout := longTimeout
 	if rng.Chance(30) {
 		timeout = time.Duration(200+rng.Intn(1800)) * time.Microsecond
@@ -37,10 +59,6 @@ func (en *Engine) Stress(n, q int, o StressOpt, idx int) {
 	}
 	oneLane := rng.Chance(30)
 	lane0 := rng.Intn(n)
-	mode := o.CancelMode
-	if mode == 0 {
-		mode = 1 + rng.Intn(2)
-	}
 	type plan struct {
 		t    *Task
 		lane int
@@ -100,6 +118,10 @@ func (en *Engine) Stress(n, q int, o StressOpt, idx int) {
 		}()
 	}
 	cancelled := false
+	if mode == 3 {
+		<-expired
+		cancelled = true
+	}
 	if mode == 2 {
 		time.Sleep(time.Duration(rng.Intn(1500)) * time.Microsecond)
 		r.Cancel(en.ctxErr())
@@ -120,10 +142,10 @@ func (en *Engine) Stress(n, q int, o StressOpt, idx int) {
 		select {
 		case <-done:
 		case <-time.After(LiveBound):
-			r.stuck = true
+			r.stuck.Store(true)
 		}
 	}
-	if mode == 1 && !r.stuck {
+	if mode == 1 && !r.stuck.Load() {
 		// the context is live and every task returns: each accepted task must be started
 		if !WaitUntil(LiveBound, func() bool {
 			r.mu.Lock()
